@@ -140,7 +140,7 @@ func main() {
 	}
 
 	// ---- phase 2: every operator triple (quick: a seeded sample) -----------------------
-	pct := e.Pick(6, 100)
+	pct := e.Pick(3, 100)
 	skippedByPair, notSampled := 0, 0
 	skippedByQuarantine := map[string]int{}
 	triples := genTriples(vals, func(key string) bool {
